@@ -326,6 +326,183 @@ def extract_source_facts(repo):
     return [(k, facts[k]) for k, _ in MODEL_FACTS], [(k, nums[k]) for k, _ in MODEL_NUMS], missing
 
 
+MODEL_RES = [("draw_mult", 3), ("range_mult", 3), ("range_step", 3), ("slice_width", 3), ("targets", 3), ("batch_size", 20), ("shuffle_inplace", 1)]
+
+
+def extract_reservoir_facts(repo):
+    """Literals of pipes.filters.Reservoir.filter the model's walk (`Model/C05.lean: batchedTriples/reservoirWalk/resNums`) depends on,
+    read with `ast`: `randoms(K*batch_size)`, `range(0,K*batch_size,STEP)`, `randoms[i:i+W]`, number of loop targets, call-site batch
+    size, `rng.shuffle(reservoir,inplace=True)`. Unrecognised shapes keep the model's value and are listed."""
+    tree = ast.parse(open(os.path.join(repo, "coba", "pipes", "filters.py"), encoding="utf-8").read())
+    cls = next(n for n in tree.body if isinstance(n, ast.ClassDef) and n.name == "Reservoir")
+    flt = next(n for n in cls.body if isinstance(n, ast.FunctionDef) and n.name == "filter")
+    nums, missing = dict(MODEL_RES), []
+
+    def attempt(keys, fn):
+        try:
+            r = fn()
+            for k in keys:
+                nums[k] = r[k]
+        except Exception:
+            missing.extend(keys)
+
+    def mult_of(n, var):       # K*var or var*K or var
+        if isinstance(n, ast.Name) and n.id == var:
+            return 1
+        if isinstance(n, ast.BinOp) and isinstance(n.op, ast.Mult):
+            if isinstance(n.right, ast.Name) and n.right.id == var: return const_int(n.left)
+            if isinstance(n.left, ast.Name) and n.left.id == var: return const_int(n.right)
+        raise ValueError("multiple")
+
+    def batched():
+        f = next(n for n in ast.walk(flt) if isinstance(n, ast.FunctionDef) and n.name == "batched_randoms_forever")
+        var = f.args.args[0].arg
+        draws = [n for n in ast.walk(f) if is_call(n, None, 1) and isinstance(n.func, ast.Attribute) and n.func.attr == "randoms"]
+        if len(draws) != 1: raise ValueError("draw")
+        out = {"draw_mult": mult_of(draws[0].args[0], var)}
+        loop = next(n for n in ast.walk(f) if isinstance(n, ast.For))
+        if not (is_call(loop.iter, "range", 3) and const_int(loop.iter.args[0]) == 0): raise ValueError("range")
+        out["range_mult"], out["range_step"] = mult_of(loop.iter.args[1], var), const_int(loop.iter.args[2])
+        sl = next(n for n in ast.walk(loop) if isinstance(n, ast.Subscript) and isinstance(n.slice, ast.Slice))
+        lo, hi = sl.slice.lower, sl.slice.upper
+        if not (isinstance(lo, ast.Name) and lo.id == loop.target.id and isinstance(hi, ast.BinOp) and isinstance(hi.op, ast.Add) and dotted(hi.left) == lo.id):
+            raise ValueError("slice")
+        out["slice_width"] = const_int(hi.right)
+        return out
+
+    def call_site():
+        loop = next(n for n in ast.walk(flt) if isinstance(n, ast.For) and is_call(n.iter, "batched_randoms_forever", 1))
+        if not isinstance(loop.target, ast.Tuple): raise ValueError("targets")
+        return {"targets": len(loop.target.elts), "batch_size": const_int(loop.iter.args[0])}
+
+    def shuf():
+        calls = [n for n in ast.walk(flt) if isinstance(n, ast.Assign) and isinstance(n.targets[0], ast.Name) and n.targets[0].id == "reservoir" and is_call(n.value, "rng.shuffle")]
+        if len(calls) != 1: raise ValueError("shuffle")
+        kw = {k.arg: k.value for k in calls[0].value.keywords}
+        inpl = kw.get("inplace", calls[0].value.args[1] if len(calls[0].value.args) > 1 else ast.Constant(False))
+        return {"shuffle_inplace": 1 if inpl.value else 0}
+
+    attempt(["draw_mult", "range_mult", "range_step", "slice_width"], batched)
+    attempt(["targets", "batch_size"], call_site)
+    attempt(["shuffle_inplace"], shuf)
+    return [(k, nums[k]) for k, _ in MODEL_RES], missing
+
+
+MODEL_GAUSS = [("R.outer", "math.sqrt"), ("R.inner", "math.log"), ("R.arg", "U"), ("S.const", "math.pi"), ("S.draw", "next(self._randu)"),
+               ("U.draw", "next(self._randu)"), ("yield.0", "R*math.cos(S)"), ("yield.1", "R*math.sin(S)"),
+               ("gauss.scale", "self.gausses(1,mu,sigma)[0]"), ("gausses.scale", "mu+sigma*g for g in islice(self._randg,n)")]
+
+
+def extract_gauss_shape(repo):
+    """The Box-Muller EXPRESSIONS of coba/random.py (which function is applied to what, in which order the two values are yielded, how
+    mu/sigma enter), beyond the two integer coefficients of `srcNums`: R = <sqrt>(c*<log>(U)), S = c*<pi>*next(randu), yield R*<cos>(S),
+    yield R*<sin>(S). Local aliases (sqrt = math.sqrt ...) are resolved; only the recognised shape is read."""
+    tree = ast.parse(open(os.path.join(repo, "coba", "random.py"), encoding="utf-8").read())
+    cls = next(n for n in tree.body if isinstance(n, ast.ClassDef) and n.name == "CobaRandom")
+    meth = {n.name: n for n in cls.body if isinstance(n, ast.FunctionDef)}
+    imported = {}
+    for n in tree.body:
+        if isinstance(n, ast.ImportFrom):
+            for a in n.names:
+                imported[a.asname or a.name] = n.module + "." + a.name
+    facts, missing = dict(MODEL_GAUSS), []
+
+    def attempt(keys, fn):
+        try:
+            r = fn()
+            for k in keys:
+                facts[k] = r[k]
+        except Exception:
+            missing.extend(keys)
+
+    def body():
+        f = meth["_next_gaussian"]
+        alias = dict(imported)
+        alias.update({dotted(n.targets[0]): dotted(n.value) for n in f.body if isinstance(n, ast.Assign) and isinstance(n.value, (ast.Attribute, ast.Name))})
+        name = lambda n: alias.get(dotted(n), dotted(n))
+        src = lambda n: ast.unparse(n).replace(" ", "")
+        loop = next(n for n in f.body if isinstance(n, ast.While))
+        asg = {dotted(n.targets[0]): n.value for n in loop.body if isinstance(n, ast.Assign)}
+        R, S_, U = asg["R"], asg["S"], asg["U"]
+        inl = lambda n: asg[n.id] if isinstance(n, ast.Name) and n.id in asg and n.id not in ("R", "S", "U") else n     # a value first put into a local
+        if not (is_call(R, None, 1) and isinstance(R.args[0], ast.BinOp) and isinstance(R.args[0].op, ast.Mult) and is_call(R.args[0].right, None, 1)):
+            raise ValueError("R")
+        if not (isinstance(S_, ast.BinOp) and isinstance(S_.op, ast.Mult) and isinstance(S_.left, ast.BinOp) and isinstance(S_.left.op, ast.Mult)):
+            raise ValueError("S")
+        ys = [n.value.value for n in loop.body if isinstance(n, ast.Expr) and isinstance(n.value, ast.Yield)]
+        if len(ys) != 2 or not all(isinstance(y, ast.BinOp) and isinstance(y.op, ast.Mult) and is_call(y.right, None, 1) for y in ys):
+            raise ValueError("yields")
+        yl = ["%s*%s(%s)" % (src(y.left), name(y.right.func), src(y.right.args[0])) for y in ys]
+        return {"R.outer": name(R.func), "R.inner": name(R.args[0].right.func), "R.arg": src(R.args[0].right.args[0]), "S.const": name(S_.left.right),
+                "S.draw": src(inl(S_.right)), "U.draw": src(inl(U)), "yield.0": yl[0], "yield.1": yl[1]}
+
+    def scale():
+        r1 = next(n for n in ast.walk(meth["gauss"]) if isinstance(n, ast.Return)).value
+        r2 = next(n for n in ast.walk(meth["gausses"]) if isinstance(n, ast.Return)).value
+        if not (isinstance(r1, ast.Subscript) and is_call(r1.value, "self.gausses", 3) and isinstance(r2, ast.ListComp) and len(r2.generators) == 1 and not r2.generators[0].ifs):
+            raise ValueError("scale")
+        g = r2.generators[0]
+        return {"gauss.scale": ast.unparse(r1).replace(" ", ""),
+                "gausses.scale": "%s for %s in %s" % (ast.unparse(r2.elt).replace(" ", ""), ast.unparse(g.target), ast.unparse(g.iter).replace(" ", ""))}
+
+    attempt([k for k, _ in MODEL_GAUSS[:8]], body)
+    attempt(["gauss.scale", "gausses.scale"], scale)
+    return [(k, facts[k]) for k, _ in MODEL_GAUSS], missing
+
+
+def inexact_pmfs():
+    """pmfs as learners really produce them, whose Python float sum is not exactly 1.0 (all inside SafeLearner's 0.001 tolerance);
+    computed here, kept only if the running Python's sum() is indeed != 1 (3.12+ sums with compensation)"""
+    out = []
+    for eps, n in ((0.3, 3), (0.1, 3), (0.3, 7), (0.05, 3), (0.2, 6), (0.1, 7)):
+        out.append([1 - eps + eps / n] + [eps / n] * (n - 1))
+        out.append([eps / n] * (n - 1) + [1 - eps + eps / n])
+    for sc in ([1, 2, 3, 4], [0.5, 1.5, 2.5], [1, 2, 3], [0.1, 0.2, 0.3, 0.4, 0.5]):
+        z = sum(math.exp(x) for x in sc)
+        out.append([math.exp(x) / z for x in sc])
+    out += [[0.5, 0.4995, 0.0], [0.0, 0.5005, 0.5], [0.25, 0.0, 0.7505], [0.3334, 0.3334, 0.3334], [0.0, 0.9995]]
+    return [p for p in out if sum(p) != 1.0]
+
+
+def reservoir_reference(triples, perm, n, count):
+    """Algorithm L as Reservoir.filter performs it, fed with given uniforms: `perm` = the shuffled first `count` items,
+    `triples` = iterator of (r1,r2,r3). Returns (sample, number of replacements, triples consumed)"""
+    from itertools import islice
+    items = iter(range(count, n))
+    reservoir = list(perm)
+    W, x = 1, 1 / count
+    steps = used = 0
+    try:
+        for r1, r2, r3 in triples:
+            used += 1
+            if r1 == 0 or r2 == 0: continue
+            W = W * r1 ** x
+            S = math.floor(math.log(r2, 1 - W))
+            reservoir[int(r3 * count)] = next(islice(items, S, S + 1))
+            steps += 1
+    except StopIteration:
+        pass
+    return reservoir, steps, used
+
+
+def run_reservoir(case):
+    from coba.pipes import Reservoir
+    import coba.random as cr
+    c = case["reservoir"]
+    seed, count, n = mk_seed(c["seed"]), c["count"], c["n"]
+    out1 = list(Reservoir(count, seed=seed).filter(list(range(n))))
+    out2 = list(Reservoir(count, seed=seed).filter(iter(range(n))))
+    # the sample the seed's stream determines, one public-API call at a time
+    rng = cr.CobaRandom(seed)
+    perm = rng.shuffle(list(range(count)))
+
+    def stream():
+        while True:
+            yield rng.random(), rng.random(), rng.random()
+    ref, steps, used = reservoir_reference(stream(), perm, n, count)
+    return {"list": out1, "iter": out2, "ref": ref, "steps": steps, "used": used}
+
+
 ERRS = {ValueError: "ValueError", IndexError: "IndexError", StopIteration: "StopIteration", ZeroDivisionError: "ZeroDivisionError",
         TypeError: "TypeError"}
 
@@ -667,6 +844,34 @@ class C05(Property):
                     ",\n   ".join("(%s, %d)" % (lstr(k), v) for k, v in nums),
                     ", ".join(lstr(k) for k in missing)))
         self._write_generated(os.path.join(lean.LEAN_DIR, "CobaVerif", "Generated", "C05Source.lean"), body2)
+        try:
+            rnums, rmissing = extract_reservoir_facts(os.environ.get("COBA_REPO", "/repo"))
+        except Exception as e:
+            rnums, rmissing = list(MODEL_RES), ["*:" + type(e).__name__]
+        try:
+            gfacts, gmissing = extract_gauss_shape(os.environ.get("COBA_REPO", "/repo"))
+        except Exception as e:
+            gfacts, gmissing = list(MODEL_GAUSS), ["*:" + type(e).__name__]
+        gdiff = [(k, v, dict(MODEL_GAUSS)[k]) for k, v in gfacts if dict(MODEL_GAUSS)[k] != v]
+        notes.append("Box-Muller expressions read with ast: %d of %d recognised%s%s" % (
+            len(gfacts) - len(gmissing), len(gfacts), ("; NOT recognised (model value kept): " + ", ".join(gmissing)) if gmissing else "",
+            ("; DIFFERENT from the model: " + ", ".join("%s=%r (model %r)" % d for d in gdiff)) if gdiff else ""))
+        body3 = ("-- GENERATED by harness/props/c05.py from coba/pipes/filters.py and coba/random.py (ast) on every run; do not edit.\n"
+                 "-- Places whose shape was not recognised keep the model's value and are listed in `resNotExtracted`.\n"
+                 "namespace Coba.Generated.C05\n"
+                 "def resNums : List (String × Int) :=\n  [%s]\n"
+                 "def resNotExtracted : List String := [%s]\n"
+                 "-- Box-Muller expressions of coba/random.py (functions applied, order of the two yields, how mu/sigma enter)\n"
+                 "def gaussShape : List (String × String) :=\n  [%s]\n"
+                 "def gaussNotExtracted : List String := [%s]\n"
+                 "end Coba.Generated.C05\n"
+                 % (",\n   ".join("(%s, %d)" % (lstr(k), v) for k, v in rnums), ", ".join(lstr(k) for k in rmissing),
+                    ",\n   ".join("(%s, %s)" % (lstr(k), lstr(v)) for k, v in gfacts), ", ".join(lstr(k) for k in gmissing)))
+        self._write_generated(os.path.join(lean.LEAN_DIR, "CobaVerif", "Generated", "C05Reservoir.lean"), body3)
+        rdiff = [(k, v, dict(MODEL_RES)[k]) for k, v in rnums if dict(MODEL_RES)[k] != v]
+        notes.append("Reservoir.filter literals read with ast: %d of %d recognised%s%s" % (
+            len(rnums) - len(rmissing), len(rnums), ("; NOT recognised (model value kept): " + ", ".join(rmissing)) if rmissing else "",
+            ("; DIFFERENT from the model: " + ", ".join("%s=%r (model %r)" % d for d in rdiff)) if rdiff else ""))
         self._src_diff = [(k, v, dict(MODEL_FACTS + MODEL_NUMS)[k]) for k, v in facts + nums if dict(MODEL_FACTS + MODEL_NUMS)[k] != v]
         notes.append("source facts read with ast: %d of %d places recognised%s%s" % (
             len(facts) + len(nums) - len(missing), len(facts) + len(nums),
@@ -923,6 +1128,10 @@ class C05(Property):
         return self.gen_op(rng, i)
 
     def generate(self, rng, tier):
+        if rng.chance(0.04):
+            return self.gen_reservoir_case(rng)
+        if rng.chance(0.05):
+            return self.gen_inexact_case(rng)
         if rng.chance(0.12):
             return self.gen_via_case(rng)
         if rng.chance(0.08):
@@ -975,7 +1184,7 @@ class C05(Property):
 
     def corpus(self):
         cyc = [{"cycle": {"seed": sd, "steps": 1 << k}} for sd, k in ((0, 4), (1, 10), (7, 16), (482549499, 18), (123456789, 20))]
-        return cyc + self.corpus_histories()
+        return cyc + self.corpus_histories() + self.corpus_phase5()
 
     def corpus_histories(self):
         s0 = seed_for(1, 0)
@@ -1100,6 +1309,82 @@ class C05(Property):
                        + [dict(r, i=3, op="choicew") for r in rows]})
         return cs
 
+    def corpus_phase5(self):
+        cs = []
+        S = lambda v, **kw: dict({"kind": "int", "v": v}, **kw)
+        # round h (hm3): Reservoir as a caller -- runs of 0, <=21, >21, >42, >63 replacement steps (batch borders at 20/40/60 triples)
+        for seed in (1, 2, 3, 7):
+            for count, n in ((1, 5), (3, 3), (3, 4), (5, 40), (10, 200), (4, 1000), (10, 2000), (10, 100000), (50, 5000), (2, 30000), (20, 1500)):
+                cs.append({"reservoir": {"seed": S(seed), "count": count, "n": n}})
+        cs.append({"reservoir": {"seed": {"kind": "str", "v": "abc"}, "count": 6, "n": 3000}})
+        cs.append({"reservoir": {"seed": S(seed_for(4, 0)), "count": 4, "n": 900}})      # a uniform that is exactly 0 in the walk: the triple is skipped
+        # round h (hm2): pmfs whose float sum is not exactly 1 (epsilon-greedy, softmax, inside SafeLearner's tolerance), through every caller
+        pm = [[q(x) for x in p] for p in inexact_pmfs()]
+        for seed in (1, 2, 3):
+            for via in ("safe", "pmf", "pmfinfo", None):
+                hist = []
+                for p in pm:
+                    hist += [{"i": 0, "op": "choicew", "n": len(p), "w": p, "inexact": True}] * 3
+                cs.append({"seeds": [S(seed, via=via) if via else S(seed)], "hist": hist})
+            cs.append({"seeds": [S(seed, via="safe", inner=S(5))], "hist": [{"i": 0, "op": "choicew", "n": len(p), "w": p, "inexact": True} for p in pm] * 2})
+            # SafeLearner's batched PMF paths (row / column major) and a plain generator on the same rows
+            for k in (3, 4, 7):
+                rows = [{"n": len(p), "w": p} for p in pm if len(p) == k]
+                if rows:
+                    bt = lambda i, a, b: {"i": i, "op": "choicew_batch", "rows": rows[a:b], "inexact": True}
+                    cs.append({"seeds": [S(seed, via="safe-row", n=k), S(seed, via="safe-col", n=k), S(seed)],
+                               "hist": [bt(i, a, b) for a, b in ((0, 2), (2, 4), (0, len(rows)), (1, 2), (0, 2)) for i in (0, 1, 2) if rows[a:b] and not (i == 1 and b - a == k)]})
+            # FixedLearner(pmf,seed) with an inexact pmf: bare, wrapped, wrapped twice
+            for p in pm[:6]:
+                fx = lambda i: {"i": i, "op": "choicew", "n": len(p), "w": p, "inexact": True}
+                cs.append({"seeds": [S(seed, via="fixed", n=len(p), pmf=p), S(seed, via="fixed", n=len(p), pmf=p, wrap=7), S(seed, via="fixed", n=len(p), pmf=p, wrap=7, wrap2=2), S(seed)],
+                           "hist": [fx(0), fx(1), fx(2), fx(3)] * 4})
+        # size thresholds: randint bounds around 2^30 and 2^53, choice over more than 2^30 total integer weight, at the extreme uniforms
+        big = [(0, 2 ** 30 - 2), (0, 2 ** 30 - 1), (0, 2 ** 30), (1, 2 ** 30), (-(2 ** 30), 2 ** 30), (0, 2 ** 30 + 1), (0, 2 ** 53 - 2), (0, 2 ** 53 - 1), (0, 2 ** 53),
+               (0, 2 ** 53 + 1), (2 ** 53 - 1, 2 ** 53 + 1), (-(2 ** 53) - 1, 2 ** 53 + 1), (5, 2 ** 23 + 4), (5, 2 ** 23 + 5)]
+        bigw = [[2 ** 30, 2 ** 30], [2 ** 31 - 1, 1], [1, 2 ** 31 - 1], [2 ** 30, 1], [1, 2 ** 30], [0, 2 ** 30 + 1, 0], [2 ** 29, 0, 2 ** 29, 1], [2 ** 52, 2 ** 52], [2 ** 53, 1]]
+        for s_ in (seed_for(1, 0), seed_for(1, M - 1), seed_for(1, M // 2), seed_for(1, 1), 1, 7):
+            hist = [{"i": 0, "op": "randint", "a": a, "b": b} for a, b in big] + [{"i": 0, "op": "randints", "n": 3, "a": a, "b": b} for a, b in big[:6]]
+            cs.append({"seeds": [S(seed_for(1, 0)) if False else S(s_)], "hist": hist})
+            for k in (1, 2, 3):     # the extreme uniform lands on each call once
+                cs.append({"seeds": [S(seed_for(k, M - 1))], "hist": [{"i": 0, "op": "randint", "a": a, "b": b} for a, b in big[k - 1:k + 6]]})
+            cs.append({"seeds": [S(s_)], "hist": [{"i": 0, "op": op_, "n": len(w), "w": [[x, 1] for x in w]} for w in bigw for op_ in ("choice", "choicew")]})
+        # size thresholds: list sizes around 2^10
+        for n in (1023, 1024, 1025):
+            cs.append({"seeds": [S(3)], "hist": [{"i": 0, "op": "randoms", "n": n, "lo": [0, 1], "hi": [1, 1], "exact": True}, {"i": 0, "op": "randints", "n": n, "a": 0, "b": 1023},
+                                                 {"i": 0, "op": "shuffle", "n": n}, {"i": 0, "op": "random", "lo": [0, 1], "hi": [1, 1], "exact": True}]})
+        for n in (65535, 65536, 65537):
+            cs.append({"seeds": [S(5)], "hist": [{"i": 0, "op": "randoms", "n": n, "lo": [0, 1], "hi": [1, 1], "exact": True}, {"i": 0, "op": "randints", "n": n, "a": 1, "b": 65536},
+                                                 {"i": 0, "op": "random", "lo": [0, 1], "hi": [1, 1], "exact": True}]})
+        return cs
+
+    def gen_reservoir_case(self, rng):
+        count = rng.choice([1, 2, 3, 4, 5, 8, 10, 16, 25])
+        n = rng.choice([count, count + 1, count * 8, count * 100, count * 100, count * 1000, count * 1000, rng.randint(count, 40000)])
+        return {"reservoir": {"seed": {"kind": "int", "v": rng.randint(0, 10 ** 6)} if rng.chance(0.8) else self.gen_seed(rng, boundary_ok=False), "count": count, "n": n}}
+
+    def gen_inexact_case(self, rng):
+        """pmfs with float sum != 1 through a caller, interleaved with a plain generator of the same seed"""
+        pms = inexact_pmfs()
+        sd = {"kind": "int", "v": rng.randint(0, 99)}
+        via = rng.choice(["safe", "safe", "pmf", "pmfinfo", "safe-row", "safe-col", "rewrap"])
+        first = dict(sd, via="safe", inner={"kind": "int", "v": rng.randint(0, 9)}) if via == "rewrap" else dict(sd, via=via)
+        hist = []
+        if via in ("safe-row", "safe-col"):
+            k = rng.choice([3, 3, 4, 7])
+            first["n"] = k
+            pool = [p for p in pms if len(p) == k]
+            for _ in range(rng.choice([2, 4, 6])):
+                B = rng.choice([b for b in (1, 2, 3, 4) if via == "safe-row" or b != k])
+                rows = [{"n": k, "w": [q(x) for x in rng.choice(pool)]} for _ in range(B)]
+                i = rng.below(2)
+                hist.append({"i": i, "op": "choicew_batch", "rows": rows, "inexact": True})
+        else:
+            for _ in range(rng.choice([3, 6, 10])):
+                p = rng.choice(pms)
+                hist.append({"i": rng.below(2), "op": "choicew", "n": len(p), "w": [q(x) for x in p], "inexact": True})
+        return {"seeds": [first, dict(sd)], "hist": hist}
+
     # ---- evaluation
     def evaluate(self, case, driver):
         fails, tags = [], []
@@ -1117,6 +1402,8 @@ class C05(Property):
                 if mo != o["first"]:
                     fails.append(F("A", "first four uniforms of seed %d: implementation %s, model %s" % (c["seed"], o["first"], mo), "A:cycle-first"))
             return {"fails": fails, "nontrivial": True, "tags": tags, "impl": o, "model": None}
+        if "reservoir" in case:
+            return self.evaluate_reservoir(case, driver)
         impl = run_history(case)
         hist = case["hist"]
         n_values = 0
@@ -1126,6 +1413,8 @@ class C05(Property):
             if op == "noise" or "skipped" in o:
                 continue
             tags.append("op:" + op)
+            if h.get("inexact"):
+                tags.append("pmf:float-sum-not-1")
             if op in ("reseed", "pickle"):
                 continue
             via = case["seeds"][h["i"]].get("via")
@@ -1181,7 +1470,7 @@ class C05(Property):
                     if not (h["a"] <= x <= h["b"]):
                         fails.append(F("B", "%s(%d,%d) returned %d" % (op, h["a"], h["b"], x), "randint-out-of-range"))
             elif op == "shuffle":
-                if sorted(o["perm"], key=str) != list(range(h["n"])):
+                if sorted(o["perm"], key=lambda x: (0, x) if isinstance(x, int) else (1, str(x))) != list(range(h["n"])):
                     fails.append(F("B", "shuffle(range(%d)) returned %s: not a permutation / input mutated" % (h["n"], o["perm"]), "shuffle-not-perm"))
             elif op in ("choice", "choicew"):
                 w = h.get("w")
@@ -1349,6 +1638,37 @@ class C05(Property):
                     fails.append(F("C", "model: interleaved run of instance %d differs from running it alone" % i, "C:frame"))
         return {"fails": fails, "nontrivial": n_values >= 3, "tags": tags, "impl": finite_json(impl), "model": model}
 
+    def evaluate_reservoir(self, case, driver):
+        """Reservoir(count,seed) as a CALLER of CobaRandom(seed): (B) its sample is the one the seed's stream determines (Algorithm L fed
+        with shuffle + consecutive uniforms of CobaRandom(seed), one public call at a time); (A) the same with the uniforms of the Lean
+        model's `reservoirWalk` (proved = the consecutive triples of the model's stream, `reservoir_consumes_stream`)"""
+        fails, c = [], case["reservoir"]
+        o = run_reservoir(case)
+        st = o["steps"]
+        tags = ["via:reservoir", "reservoir:steps" + (">63" if st > 63 else ">42" if st > 42 else ">21" if st > 21 else ">0" if st else "=0")]
+        if o["used"] > st + 1:       # the last triple ends the run (StopIteration); any further unused triple held a uniform 0.0
+            tags.append("reservoir:zero-uniform-skipped")
+        if o["list"] != o["iter"]:
+            fails.append(F("B", "Reservoir(%d,seed=%s) over range(%d): list input and iterator input give different samples" % (c["count"], json.dumps(c["seed"]), c["n"]), "reservoir-input-kind"))
+        if o["list"] != o["ref"]:
+            k = next((j for j, (a, b) in enumerate(zip(o["list"], o["ref"])) if a != b), -1)
+            fails.append(F("B", "Reservoir(count=%d,seed=%s).filter(range(%d)) (%d replacement steps) is not the sample the stream of CobaRandom(seed) determines "
+                           "(shuffle of the first %d items, then three consecutive uniforms per step): slot %d holds %s, the stream gives %s"
+                           % (c["count"], json.dumps(c["seed"]), c["n"], st, c["count"], k, o["list"][k] if 0 <= k < len(o["list"]) else None, o["ref"][k] if 0 <= k < len(o["ref"]) else None),
+                           "caller-not-seed-stream:reservoir"))
+        model = None
+        if driver is not None:
+            model = driver.ask({"reservoir": {"seed": seed_for_model(c["seed"]), "count": c["count"], "batches": o["used"] // 20 + 1}})
+            trip = [(a / M, b / M, d / M) for a, b, d in model["triples"]]
+            mref, msteps, mused = reservoir_reference(iter(trip), model["perm"], c["n"], c["count"])
+            if mused >= len(trip) and msteps and len(o["list"]) == c["count"] and c["n"] > c["count"]:
+                fails.append(F("A", "model walk too short (%d triples)" % len(trip), "A:reservoir-short"))
+            elif mref != o["list"] or msteps != st:
+                fails.append(F("A", "Reservoir(count=%d,seed=%s) over range(%d): implementation %s, Algorithm L on the model's walk %s"
+                               % (c["count"], json.dumps(c["seed"]), c["n"], o["list"][:12], mref[:12]), "A:reservoir"))
+            model = {"perm": model["perm"], "steps": msteps}
+        return {"fails": fails, "nontrivial": st >= 1, "tags": tags, "impl": o, "model": model}
+
     def compare(self, h, o, mo):
         op = h["op"]
         if "err" in o or "err" in mo:
@@ -1365,12 +1685,20 @@ class C05(Property):
                 if d:
                     return d
             return None
-        if op == "randint":
-            return None if o["int"] == mo["int"] else "value differs"
-        if op == "randints":
-            return None if o["ints"] == mo["ints"] else "values differ"
+        if op in ("randint", "randints"):
+            xs, ms = ([o["int"]], [mo["int"]]) if op == "randint" else (o["ints"], mo["ints"])
+            if len(xs) != len(ms):
+                return "length differs"
+            # width*u is exact in double precision up to width 2^23 (u has 30 bits); beyond that the product is rounded before floor():
+            # the model's exact floor may differ by the rounding of a (<= 2^84)-sized product, i.e. by 1 (+ width/2^52 for widths > 2^53)
+            w = abs(h["b"] - h["a"]) + 1
+            tol = 0 if w <= 2 ** 23 else max(1, w >> 51)
+            return None if all(abs(x - m) <= tol for x, m in zip(xs, ms)) else "value differs"
         if op == "shuffle":
             return None if o["perm"] == mo["perm"] else "permutation differs"
+        if op in ("choice", "choicew") and h.get("w") and not h.get("inexact") and sum(abs(unq(p)) for p in h["w"]) > 2 ** 23 \
+                and any((sum(unq(p) for p in h["w"]) * k).denominator != 1 or (sum(unq(p) for p in h["w"]) * k) >= 2 ** 53 for k in (1, M - 1)):
+            return None     # u*total is not exact in double precision (total > 2^23 and not a power of two): contract (B) only for this value
         if op == "choice":
             return None if o["idx"] == mo["idx"] else "index differs"
         if op == "choicew_batch":
@@ -1407,7 +1735,7 @@ class C05(Property):
         return "value differs (impl %s, model %s)" % (a, b)
 
     def shrink(self, case):
-        if "cycle" in case:
+        if "cycle" in case or "reservoir" in case:
             return
         hist = case["hist"]
         for k in range(len(hist)):
@@ -1430,6 +1758,9 @@ class C05(Property):
             return ("import sys; sys.path[:0]=['/repo']\nfrom coba.random import CobaRandom\nr=CobaRandom(%d); a=[r.random() for _ in range(4)]\n"
                     "left=%d-4\nwhile left>0:\n    n=min(left,1<<20); r.randoms(n); left-=n\nb=[r.random() for _ in range(4)]\nprint(a==b, a, b)  # True: the stream repeats after %d draws\n"
                     % (case["cycle"]["seed"], case["cycle"]["steps"], case["cycle"]["steps"]))
+        if "reservoir" in case:
+            return ("import sys; sys.path[:0]=['/repo','/verif/harness']\nfrom props.c05 import run_reservoir\nimport json\n"
+                    "o = run_reservoir(json.loads(%r))\nprint(o['list'] == o['ref'], o['steps'], o['list'], o['ref'])  # False: not the sample the seed's stream determines\n" % json.dumps(case))
         return ("import sys; sys.path[:0]=['/repo','/verif/harness']\nfrom props.c05 import run_history\nimport json\n"
                 "case = json.loads(%r)\nprint(run_history(case))\n" % json.dumps(case))
 
